@@ -346,6 +346,26 @@ def check_constructor(ctx):
         ctx.holds('R13-flag-writers', up, 'cls(_initialize_fields=False)', 'a parsed packet starts with the flag unset (= enabled by default)', up.node.lineno, clause='e')
     else:
         ctx.violation('R13-flag-writers', up, 'Packet.unpack', 'the parsed instance is initialised with defaults first', up.node.lineno, clause='e')
+    # nested packets parsed through a Ref also start blank (flag unset)
+    rf = repo.cls('Ref')
+    w2 = repo.walker()
+    for mname in ('_unpack_referencing_a_packet', '_unpack_using_callable'):
+        fi2 = rf.methods.get(mname)
+        if fi2 is None:
+            continue
+        for p in w2.paths(fi2.node, cls=rf):
+            if p.raises():
+                continue
+            for e in p.setattrs():
+                if canon(e.name) != 'self.field_name':
+                    continue
+                v = e.value
+                blank = isinstance(v, ast.Call) and any(k.arg == '_initialize_fields' and isinstance(k.value, ast.Constant) and k.value.value is False for k in v.keywords)
+                st = '%s stores %s' % (mname, canon(v)[:100])
+                if blank:
+                    ctx.holds('R13-flag-writers', fi2, st, 'the nested packet is parsed into a blank instance (no descriptor state inherited)', e.lineno, clause='e')
+                else:
+                    ctx.violation('R13-flag-writers', fi2, st, 'the nested packet is parsed into a pre-populated object (prototype / selector result): an explicitly assigned descriptor of the prototype stays disabled in every parsed packet', e.lineno, clause='e')
     writers = []
     for f in repo.functions.values():
         for n in ast.walk(f.node):
